@@ -118,9 +118,48 @@ func init() {
 				{"cmd": "userdict", "attrs": []UAttr{}, "split": true, "chords": []UChord{{"Parent", "pa", []string{"Perfect1", "Minor3"}, ""}, {"Child", "ch", []string{"Major9"}, "pa"}}},
 				{"cmd": "userdict", "attrs": []UAttr{}, "split": true, "chords": []UChord{{"Twice", "tw", []string{"Perfect1", "Minor3"}, ""}, {"Twice", "tw", []string{"Perfect1", "Major3", "Major6"}, ""}}}, // the later file wins
 				{"cmd": "userdict", "attrs": []UAttr{}, "split": true, "chords": []UChord{{"Twice", "tw", []string{"Perfect1", "Minor3"}, ""}, {"Other", "ot", nil, "tw"}, {"Twice", "tw", []string{"Perfect4"}, ""}}},
-				{"cmd": "userdict", "attrs": []UAttr{{"XA", "b2"}}, "chords": []UChord{{"", "zz", []string{"XA"}, ""}}}, // unnamed chord
+				{"cmd": "userdict", "attrs": []UAttr{{"XA", "b2"}}, "chords": []UChord{{"", "zz", []string{"XA"}, ""}}},
+				// the same file named twice: a, b, a
+				{"cmd": "userdict", "attrs": []UAttr{}, "split": true, "repeatFirst": true, "chords": []UChord{{"Q", "q", []string{"Perfect1", "Perfect4"}, ""}, {"Q2", "q", []string{"Perfect1", "Major3", "Major6"}, ""}}},
+				{"cmd": "userdict", "attrs": []UAttr{}, "split": true, "repeatFirst": true, "chords": []UChord{{"Q", "q", []string{"Perfect1", "Perfect4"}, ""}, {"Q", "qq", []string{"Perfect1", "Major3", "Major6"}, ""}}},
+				// a built-in's long name defined again under a new symbol, on top of what its old symbol still means
+				{"cmd": "userdict", "attrs": []UAttr{}, "chords": []UChord{{"MinorSeventh", "m7+", []string{"Major9"}, "m7"}}},
+				{"cmd": "userdict", "attrs": []UAttr{}, "chords": []UChord{{"MinorSeventh", "m7+", []string{"Major9"}, "m7"}, {"Top", "top", []string{"Perfect11"}, "MinorSeventh"}}},
+				// one name, two symbols: the earlier entry stays reachable under its symbol and is checked like any other
+				{"cmd": "userdict", "attrs": []UAttr{}, "chords": []UChord{{"A", "a1", nil, "Ghost"}, {"A", "a2", []string{"Perfect1", "Major3"}, ""}}},
+				{"cmd": "userdict", "attrs": []UAttr{}, "chords": []UChord{{"A", "a1", []string{"GhostAttr"}, ""}, {"A", "a2", []string{"Perfect1", "Major3"}, ""}}},
+				{"cmd": "userdict", "attrs": []UAttr{}, "chords": []UChord{{"S", "sx", nil, "sx"}, {"S", "sy", []string{"Perfect1", "Major3"}, ""}}},
+				{"cmd": "userdict", "attrs": []UAttr{}, "split": true, "chords": []UChord{{"S", "sx", nil, "sx"}, {"S", "sy", []string{"Perfect1", "Major3"}, ""}}},
+				// names and symbols that differ from a built-in's by case or by blanks only are other names
+				{"cmd": "userdict", "attrs": []UAttr{}, "chords": []UChord{{"M", "M", nil, "MajorTriad"}}},
+				{"cmd": "userdict", "attrs": []UAttr{}, "chords": []UChord{{"Blank", " ", []string{"Perfect1", "Perfect4"}, ""}}},
+				{"cmd": "userdict", "attrs": []UAttr{}, "chords": []UChord{{"majortriad", "MAJ", []string{"Perfect1", "Perfect4"}, ""}, {"Sus4 ", "SUS4", []string{"Perfect1"}, ""}}}, // unnamed chord
 			}
 			cases = append(cases, hand...)
+			// long chains of extends (deeper than any small bound), the name being its own symbol or not
+			for _, same := range []bool{true, false} {
+				for _, n := range []int{49, 64} {
+					chain := []UChord{}
+					for i := 0; i < n; i++ {
+						nm := fmt.Sprintf("L%d", i)
+						dp := nm
+						if !same {
+							dp = fmt.Sprintf("l%d", i)
+						}
+						u := UChord{nm, dp, nil, ""}
+						switch {
+						case i == 0:
+							u.Attrs = []string{"Perfect1", "Major3", "Perfect5", "Minor7"}
+						case i == n/2:
+							u.Attrs, u.Extends = []string{"Major9"}, chain[i-1].Display
+						default:
+							u.Extends = chain[i-1].Name
+						}
+						chain = append(chain, u)
+					}
+					cases = append(cases, Case{"cmd": "userdict", "attrs": []UAttr{}, "chords": chain, "onlyLast": true})
+				}
+			}
 			attrVariants := [][]UAttr{{}, {{"XA", "b2"}, {"XB", "#11"}}, {{"XA", "b2"}, {"", "3"}}}
 			type nd struct{ n, d string }
 			names := []nd{{"U1", "u1"}, {"U2", "u2"}, {"MinorTriad", "m"}, {"U7", "sus2"}} // U7: a fresh name taking over a built-in display
@@ -259,6 +298,11 @@ func init() {
 					extra = append(extra, "--chord", f)
 					files = append(files, f)
 				}
+				if cb(k, "repeatFirst") && cb(k, "split") && len(uc) > 1 {
+					// the first file is named once more at the end: its definitions are loaded again, after the others
+					extra = append(extra, "--chord", files[len(files)-len(uc)])
+					uc = append(uc, uc[0])
+				}
 				defer func() {
 					for _, f := range files {
 						os.Remove(f)
@@ -266,7 +310,10 @@ func init() {
 				}()
 				uses := []Rec{}
 				seen := map[string]bool{}
-				for _, ch := range uc {
+				for ci2, ch := range uc {
+					if cb(k, "onlyLast") && ci2 != 0 && ci2 != len(uc)-1 {
+						continue
+					}
 					for _, key := range []string{ch.Name, ch.Display} {
 						if key == "" || seen[key] || strings.ContainsAny(key, " ") {
 							continue
@@ -282,7 +329,13 @@ func init() {
 					}
 				}
 				if !overridesAttr {
-					uses = append(uses, playOne(c, "sus4", extra))
+					// built-ins next to the user entries: still what they were, unless the dictionary redefines them
+					for _, b := range []string{"sus4", "", "m", "M7"} {
+						if !seen[b] {
+							seen[b] = true
+							uses = append(uses, playOne(c, b, extra))
+						}
+					}
 				}
 				bl, _ := builtinChordList(c)
 				bn := []Rec{}
